@@ -58,9 +58,7 @@ ASSUMPTIONS = [
     'MultiStream.vle with gas_conversion= or liquid_conversion= (Reaction, ReactionItem, KineticReaction or handle), hence '
     'the conversion branches of set_thermal_condition, set_TV, set_PV, set_PH (the `+ dz*F_mol_vle`, `_dmol_vle`, `_dF_mol` '
     'paths), of _solve_v_fixed_point / xVlogK_iter / xVlogK_iter_2n, and BubblePoint.solve_Ty/solve_Py / '
-    'DewPoint.solve_Tx/solve_Px called with a conversion; also not exercised: VLE.method = "shgo" '
-    '(solve_vle_vapor_mol_shgo, whose result _solve_v does not clip), LLE.method = "shgo" / "differential evolution" '
-    '(their output is the same unconstrained parameter mol_L), LLE.__call__(update=False), the separate '
+    'DewPoint.solve_Tx/solve_Px called with a conversion; also not exercised: LLE.method = "shgo", LLE.__call__(update=False), the separate '
     'thermosteam.equilibrium.vlle.VLLE class',
     'the bubble- / dew-limited branches of set_TV / set_PV are recognised by recomputing them from the recorded bubble / '
     'dew composition bit for bit; the per-chemical cap is part of the model (theorem limited_cap), monitored: 0 <= V <= 1, '
@@ -69,9 +67,24 @@ ASSUMPTIONS = [
     'keeps `_nonzero`/`_index` (VLE) and `_nonzero`/`_index`/`_chemical` (SLE) per object, and `vle.setup` / `sle.setup` '
     'compare the reuse decision and the index with the real object',
     'for a stream that also has s/L rows, a VLE call only owns the l and g rows; the placement clauses are evaluated on those',
-    'min-flow tolerance: -1e-12*max(1, total flow): set_flows/clip/correction steps are exactly sign-preserving in '
-    'binary64 (x-y>=0 when y<=x; f*x<=x for f<=1), only the LLE renormalisation (z - mol_L)*F_mol can round below zero by '
-    'a few ulp of the flow',
+    'oracle tolerances are PER CHEMICAL: totals rtol 1e-9 of the chemical\'s own total (exact when absent); a phase flow of '
+    'chemical i must be >= -1e-12 * (total of chemical i): clip / set_flows / correction steps are sign-exact in binary64, only '
+    '(z - mol_L)*F_mol, m - F*x/(1-x) and x/total*total round by a few ulp of the chemical\'s own flow',
+    'parameters RECOVERED from the result (tautological for one entry, real comparison for all other entries / the other row): '
+    'correction fraction f from the arg-max donor entry, single-component V = g/mol, SLE melting fraction L = l/m; the bubble- / '
+    'dew-limited recognition recomputes the branch bit for bit (a re-ordering of that arithmetic in vle.py would re-classify the '
+    'step as an un-clipped set_flows with its monitored hypothesis, not a false alarm; that class does not occur on the current tree)',
+    'a call that RAISES: vle / lle / sle calls are judged for conservation, non-negativity and placement on the stream they '
+    'leave behind (signatures `...:after-<Exception>`; Stream.vlle is not: an exception inside its loop leaves the data '
+    'normalised); T-P, P-V and T-V, which have no documented way to raise, report `unexpected-raise` unless the exception is '
+    'numerical (FloatingPointError, ZeroDivisionError, OverflowError, numba ReferenceError); raise rates per specification are in '
+    'the evidence histogram (`raise:<spec>:<Exception>`)',
+    'vlle: conservation is conditional on the iteration scheme (flexsolve.fixed_point is un-accelerated, so the iterate written '
+    'back by data[:] = x is the data itself; monitored `vlle-iterate-keeps-totals`); the merge branch (|liq - LIQ|.sum() < 1e-6) '
+    'is modelled and proved but was never reached by the real code in any run (tag vlle-merged)',
+    'VLE.method = "shgo" is exercised in the thorough tier only (seconds per call): `_solve_v` stores the optimiser result '
+    'un-clipped (event solveRaw, hypothesis 0 <= v <= mol monitored as `unclipped-solver-result-bounded`); LLE.method = '
+    '"differential evolution" in both tiers; LLE.method = "shgo" and the separate equilibrium/vlle.py VLLE class are not exercised',
 ]
 TRUSTED = ['Lean 4.33 kernel', 'harness/props/c03.py (instrumentation of solver boundaries) + Driver/C03.lean',
            'generator reach (see histogram)', 'field-vs-binary64 gap: theorems over an ordered field, driver in Float, '
@@ -316,6 +329,11 @@ def _install():
         if rec is None: return o_sv(self, T, P, gas_conversion, liquid_conversion)
         rec.raw_v = None
         v = o_sv(self, T, P, gas_conversion, liquid_conversion)
+        if self.method == 'shgo':     # no clip in the code: the optimiser's result is stored as it is
+            rec.tag('vle:solve:unclipped')
+            ev = rec.fl(rec.expand(self._index, v))
+            rec.emit('vle.solveu ' + ev, 'v ' + ev)
+            return v
         raw = rec.raw_v if rec.raw_v is not None else np.array(v, float)
         rec.tag('vle:solve' + (':clipped' if not _same(raw, v) else ''))
         rec.emit('vle.solve ' + rec.fl(rec.expand(self._index, raw)), 'v ' + rec.fl(rec.expand(self._index, v)))
@@ -655,6 +673,13 @@ def _ref_energy(s, kind, q, P=None, T=None):
     return float(c.H if kind == 'H' else c.S)
 
 
+# specification pairs that return normally whatever the material (NoEquilibrium is handled inside VLE.__call__) ...
+# (the H / S specifications end in a temperature solve that can fail to converge on the unchanged tree: not listed)
+EXPECTED_TO_RETURN = {'vle:P-T', 'vle:P-V', 'vle:T-V'}
+# ... numerical overflow / domain errors of the correlations far outside their range, and the numba cache race, apart
+EXCUSED_RAISES = (FloatingPointError, ZeroDivisionError, OverflowError, ReferenceError)
+
+
 def run_ops(ops):
     global _REC
     model_in, outs, failures, tags = [], [], [], []
@@ -763,6 +788,7 @@ def run_ops(ops):
                 if 'x' in kw: args['x'] = np.array([float(kw['x']), 1 - float(kw['x'])])
                 if 'y' in kw: args['y'] = np.array([float(kw['y']), 1 - float(kw['y'])])
                 eqo = s.vle
+                eqo.method = 'shgo' if kw.get('method') == 'shgo' else eqo.default_method
                 call = lambda: eqo(**args)
             elif op == 'lle':
                 args = dict(T=float(kw['T']))
@@ -770,6 +796,7 @@ def run_ops(ops):
                 if 'top' in kw: args['top_chemical'] = kw['top']
                 if kw.get('cache') == '0': args['use_cache'] = False
                 eqo = s.lle
+                eqo.method = {'de': 'differential evolution', 'shgo': 'shgo'}.get(kw.get('method'), eqo.default_method)
                 call = lambda: eqo(**args)
             elif op == 'sle':
                 args = {}
@@ -777,6 +804,19 @@ def run_ops(ops):
                 if 'solubility' in kw: args['solubility'] = float(kw['solubility'])
                 if 'Hq' in kw:
                     c = s.copy(); args['H'] = float(c.H) * float(kw['Hq'])
+                if 'Hm' in kw:
+                    # enthalpy relative to the melting range of the solute at its Tm: 0 = all solid, 1 = all liquid
+                    j = pkg['ids'].index(kw['solute']); Tm = float(pkg['thermo'].chemicals.tuple[j].Tm)
+                    tot = [sum(x) for x in zip(*[[float(v) for v in s.imol[ph]] for ph in s.phases])]
+                    def Hat(ph_sol):
+                        c = s.copy(); c.T = Tm
+                        lrow = [float(v) for v in c.imol['l']]; srow = [float(v) for v in c.imol['s']]
+                        m = lrow[j] + srow[j]
+                        lrow[j], srow[j] = (0.0, m) if ph_sol == 's' else (m, 0.0)
+                        c.imol['l'] = lrow; c.imol['s'] = srow
+                        return float(c.H)
+                    Hs, Hl = Hat('s'), Hat('l')
+                    args['H'] = Hs + float(kw['Hm']) * (Hl - Hs)
                 eqo = s.sle
                 call = lambda: eqo(kw['solute'], **args)
             elif op == 'vlle':
@@ -825,47 +865,69 @@ def run_ops(ops):
         tags.extend(rec.tags)
         after = rec.dense()
         # ------------------------------------------------------------ oracle (real objects only)
-        scale = max(1.0, sum(_totals(before)))
+        # Tolerances are PER CHEMICAL (a trace chemical of 1e-3 kmol/hr next to 1e3 of another is judged on its own
+        # scale): totals rtol 1e-9 of the chemical's own total, exact when it is absent; a phase flow of chemical i
+        # must be >= -1e-12 * (total of chemical i).  Every write-back step is sign-exact in binary64 except
+        # (z - mol_L) * F_mol, m - F*x/(1-x) and x / total * total, whose error is a few ulp of the chemical's own flow.
         tb, ta = _totals(before), _totals(after)
-        cons = all(close(a, b, rtol=1e-9, atol=1e-12 * scale) for a, b in zip(ta, tb))
-        nonneg = all(x >= -1e-12 * scale for r in ROWS for x in after[r])      # (a NaN flow fails this too)
+        nchem = len(tb)
+        cons_i = [close(ta[i], tb[i], rtol=1e-9, atol=0.0) for i in range(nchem)]
+        cons = all(cons_i)
+        tol_i = [1e-12 * abs(tb[i]) for i in range(nchem)]
+        neg = [(r, i) for r in ROWS for i in range(nchem) if not after[r][i] >= -tol_i[i]]      # (a NaN flow fails too)
+        nonneg = not neg
         light_ok = heavy_ok = True
         if op in ('vle', 'vlle'):
             light_ok = all(after['l'][i] == 0.0 for i in pkg['light'])
             heavy_ok = all(after['g'][i] == 0.0 for i in pkg['heavy'])
         flags = f'cons={int(cons)} nonneg={int(nonneg)} light={int(light_ok)} heavy={int(heavy_ok)}'
+        spec = op + ':' + '-'.join(sorted(k for k in kw if k not in ('solute', 'top', 'cache', 'method')))
+        pre_ok = all(before[r][i] >= -tol_i[i] for r in ROWS for i in range(nchem))
+        if not pre_ok:
+            # the property quantifies over non-negative flows; a reactive flash (excluded) can leave a negative
+            # flow of its limiting reactant behind: the call is then judged for conservation and placement only
+            tags.append('pre-state-negative')
+        # A call that RAISES is outside the property text ("for which the call returns normally"), but the stream it
+        # leaves behind is not: `_setup` moves phase-locked material before it can raise NoEquilibrium, set_TH / set_TS
+        # probe all-vapour / all-liquid before NotImplementedError, LLE pools before the solver runs.  Single
+        # equilibrium calls are therefore judged after a raise too (own signatures); Stream.vlle is not (an exception
+        # inside its loop leaves the data normalised by design of that loop).
+        judged = exc is None or op in ('vle', 'lle', 'sle')
+        sfx = '' if exc is None else ':after-' + type(exc).__name__
         if exc is None:
             normal += 1
-            if any(not close(after[r][i], before[r][i], rtol=1e-12, atol=0.0) for r in ROWS for i in range(len(tb))):
+            if any(not close(after[r][i], before[r][i], rtol=1e-12, atol=0.0) for r in ROWS for i in range(nchem)):
                 moved = True
-            spec = op + ':' + '-'.join(sorted(k for k in kw if k not in ('solute', 'top', 'cache')))
+            tags.append('ret:' + spec)
+        else:
+            tags.append('raise:' + spec + ':' + type(exc).__name__)
+            if judged: tags.append('judged-after-raise')
+            # the domain "returns normally" must not shrink silently: these specification pairs have no documented
+            # way to raise (NoEquilibrium is handled inside VLE.__call__), numerical overflow apart
+            if op == 'vle' and spec in EXPECTED_TO_RETURN and not isinstance(exc, EXCUSED_RAISES):
+                failures.append({'signature': f'unexpected-raise:{spec}:{type(exc).__name__}', 'op_index': oi,
+                                 'what': f'`{line}` raised {type(exc).__name__}: {str(exc)[:120]} (this specification pair '
+                                         f'returns normally on the tree the check was validated on)'})
+        if judged:
             if not cons:
-                bad = [(pkg['ids'][i], tb[i], ta[i]) for i in range(len(tb)) if not close(ta[i], tb[i], rtol=1e-9, atol=1e-12 * scale)]
-                failures.append({'signature': f'not-conserved:{spec}', 'op_index': oi,
+                bad = [(pkg['ids'][i], tb[i], ta[i]) for i in range(nchem) if not cons_i[i]]
+                failures.append({'signature': f'not-conserved:{spec}{sfx}', 'op_index': oi,
                                  'what': f'`{line}`: per-chemical totals over all phases changed: ' +
                                          '; '.join(f'{c}: {b!r} -> {a!r}' for c, b, a in bad[:4])})
-            pre_ok = all(x >= -1e-12 * scale for r in ROWS for x in before[r])
-            if not pre_ok:
-                # the property quantifies over non-negative flows; a reactive flash (excluded) can leave a negative
-                # flow of its limiting reactant behind: the call is then judged for conservation and placement only
-                tags.append('pre-state-negative')
             if not nonneg and pre_ok:
-                r_, i_ = min(((r, i) for r in ROWS for i in range(len(tb))), key=lambda ri: after[ri[0]][ri[1]])
+                r_, i_ = min(neg, key=lambda ri: (after[ri[0]][ri[1]] if after[ri[0]][ri[1]] == after[ri[0]][ri[1]] else -math.inf))
                 branch = (op + ':lever-rule' if any(t.startswith('vle:lever') for t in rec.tags) else spec)
-                failures.append({'signature': f'negative-flow:{branch}', 'op_index': oi,
+                failures.append({'signature': f'negative-flow:{branch}{sfx}', 'op_index': oi,
                                  'what': f'`{line}`: flow of {pkg["ids"][i_]} in phase {r_!r} is {after[r_][i_]!r} '
-                                         f'(tolerance -{1e-12 * scale:.3g})'})
+                                         f'(tolerance -{tol_i[i_]:.3g} = 1e-12 of its total {tb[i_]!r})'})
             if not light_ok:
                 bad = [pkg['ids'][i] for i in pkg['light'] if after['l'][i] != 0.0]
-                failures.append({'signature': f'gas-only-in-liquid:{spec}', 'op_index': oi,
+                failures.append({'signature': f'gas-only-in-liquid:{spec}{sfx}', 'op_index': oi,
                                  'what': f'`{line}`: gas-only chemical(s) {bad} left in the liquid phase'})
             if not heavy_ok:
                 bad = [pkg['ids'][i] for i in pkg['heavy'] if after['g'][i] != 0.0]
-                failures.append({'signature': f'nonvolatile-in-gas:{spec}', 'op_index': oi,
+                failures.append({'signature': f'nonvolatile-in-gas:{spec}{sfx}', 'op_index': oi,
                                  'what': f'`{line}`: liquid/solid-only chemical(s) {bad} present in the gas phase'})
-            tags.append('ret:' + spec)
-        else:
-            tags.append('raise:' + op + ':' + type(exc).__name__)
         model_in.append('end ' + op); outs.append(rec.state_ans(' ' + flags))
         sig_parts.append(op + ':' + ','.join(sorted(set(x for x in rec.tags))))
     return model_in, outs, failures, tags, (tuple(sig_parts) if (normal and moved) else None)
@@ -939,6 +1001,7 @@ PKG_IDS = {
     'D': ['Water', 'Tetradecanol', 'Ethanol', 'Glycerol', 'O2'],
     'E': ['EthylLactate', 'LacticAcid', 'Water', 'Ethanol'],
 }
+PKG_LIGHT = {'A': [], 'B': [], 'C': [3, 4], 'D': [4], 'E': []}
 PKG_VLE = {'A': [0, 1, 2, 3], 'B': [0, 1, 2, 3, 4], 'C': [0, 1, 2], 'D': [0, 1, 2, 3], 'E': [0, 1, 2, 3]}
 SUBSETS = {
     'A': [[0, 1, 2, 3], [0, 1], [0], [1, 2, 3], [2, 3]],
@@ -979,6 +1042,7 @@ def _binary_z0(pkgname, rows):
     tot = [sum(rows[p][i] for p in rows) for i in range(n)]
     present = [i for i in PKG_VLE[pkgname] if tot[i] > 0]
     if len(present) != 2: return None
+    if any(tot[i] > 0 for i in PKG_LIGHT[pkgname]): return None     # `_N` counts the light gases as one more species
     return tot[present[0]] / (tot[present[0]] + tot[present[1]])
 
 
@@ -1049,7 +1113,9 @@ def grid_cases(rng):
     modes = ['first', 'last', 'alternate', 'random']
     for pkgname in 'ABCDE':
         for si, subset in enumerate(SUBSETS[pkgname]):
+            nvol = len([i for i in subset if i in PKG_VLE[pkgname]])
             for ki, kind in enumerate(VLE_KINDS):
+                if kind[1] in 'xy' and (nvol != 2 or any(i in subset for i in PKG_LIGHT[pkgname])): continue      # x / y specifications need exactly two equilibrium chemicals
                 mode = modes[(si + ki) % 4]
                 single = (si + ki) % 5 == 0
                 new, rows = _new(rng, pkgname, subset, rng.choice('lg') if single else 'gl', mode, single)
@@ -1082,7 +1148,7 @@ def random_case(rng):
     for _ in range(rng.randrange(1, 5)):
         f = fam if fam != 'mixed' else rng.choice(['vle', 'vle', 'lle', 'sle', 'vlle'])
         if f == 'vle':
-            kinds = VLE_KINDS[:5] * 3 + VLE_KINDS[5:7] + (VLE_KINDS[7:] * 3 if z0 is not None else VLE_KINDS[7:9])
+            kinds = VLE_KINDS[:5] * 3 + VLE_KINDS[5:7] + (VLE_KINDS[7:] * 3 if z0 is not None else [])
             ops.append(_vle_op(rng, rng.choice(kinds), z0))
         elif f == 'lle': ops.extend(_lle_ops(rng, pkgname, rng.choice([1, 2, 3])))
         elif f == 'sle': ops.append(_sle_op(rng, pkgname, any('solubility=' in o for o in ops)))
@@ -1173,7 +1239,8 @@ def history_case(rng, fam=None, pkgname=None):
         f = fam if fam != 'mixed' else rng.choice(['vle', 'vle', 'lle', 'sle', 'vlle'])
         z0 = None
         if f == 'vle':
-            kinds = VLE_KINDS[:5] * 3 + VLE_KINDS[5:7] + (VLE_KINDS[7:] * 2 if len([i for i in PKG_VLE[pkgname] if i in present]) == 2 else [])
+            kinds = VLE_KINDS[:5] * 3 + VLE_KINDS[5:7] + (VLE_KINDS[7:] * 2 if len([i for i in PKG_VLE[pkgname] if i in present]) == 2
+                                                             and not any(i in present for i in PKG_LIGHT[pkgname]) else [])
             ops.append(_vle_op(rng, rng.choice(kinds), z0))
         elif f == 'lle':
             top = rng.choice([None, None] + PKG_IDS[pkgname])
@@ -1212,11 +1279,69 @@ def grid_histories(rng):
     return out
 
 
+def grid_branches(rng, tier):
+    """Deterministic entries for write-back branches that random drawing reaches only a few times per run:
+    dew-limited and bubble-limited set_TV / set_PV, the lever rule with a clipped split fraction, the SLE
+    melting-point setters and the H-specified melting fraction, the optimiser variants of LLE (and, thorough tier,
+    of VLE)."""
+    out = []
+    f = lambda x: float(f'{x:.6g}')
+    # dew-limited: a volatile bulk with a trace of a high boiler; bubble-limited: a liquid with dissolved light gas
+    for k in range(10):
+        W = f(10 ** rng.uniform(-1, 2.5)); t = f(W * 10 ** rng.uniform(-4, -2.3))
+        ph = rng.choice(['g', 'l', 'gl'])
+        rows = {'g': [0.0] * 5, 'l': [0.0] * 5}
+        if ph == 'gl': rows['g'][0] = f(W * 0.5); rows['l'][0] = f(W * 0.5); rows[rng.choice('gl')][1] = t
+        else: rows[ph][0] = W; rows[rng.choice('gl')][1] = t
+        V = rng.choice([1e-4, 0.01, 0.1, 0.5, 0.5, 0.9, 0.99])
+        op = f'vle T={round(rng.uniform(320, 420), 2)} V={V}' if k % 2 else f'vle P={f(10 ** rng.uniform(4.5, 5.6))} V={V}'
+        out.append(Case([f'new D multi gl 330.0 101325.0 {_fmt_rows(rows)}', op, _vle_op(rng, rng.choice(['TV', 'PV']))],
+                        {'grid': 'dew-limited'}))
+    for k in range(4):
+        new, _ = _new(rng, 'C', [0, 1, 3, 4] if k % 2 else [0, 2, 3, 5], 'gl', 'random')
+        V = rng.choice([1e-6, 1e-4, 1e-3, 0.01])
+        out.append(Case([new, f'vle P={f(10 ** rng.uniform(4.6, 5.5))} V={V}', f'vle T={round(rng.uniform(300, 380), 2)} V={V}'],
+                        {'grid': 'bubble-limited'}))
+    # lever rule with the split fraction a hair outside [0, 1] (accepted up to 1e-5, clipped)
+    for pkgname, pair in (('A', [0, 1]), ('A', [2, 3]), ('B', [0, 1]), ('E', [2, 3]), ('B', [2, 3]), ('D', [0, 2])):
+        new, rows = _new(rng, pkgname, pair, 'gl', 'random')
+        z0 = _binary_z0(pkgname, rows)
+        ops = [new]
+        for spec in ('P', 'T'):
+            val = f'P={f(10 ** rng.uniform(4.7, 5.3))}' if spec == 'P' else f'T={round(rng.uniform(330, 370), 2)}'
+            for xy in 'yx':
+                for sgn in (1, -1):
+                    ops.append(f'vle {val} {xy}={min(0.999, max(0.001, z0 * (1 + sgn * 10 ** rng.uniform(-6.5, -5.2))))!r}')
+        out.append(Case(ops, {'grid': 'lever-clipped'}))
+    # SLE: pure solute (melting-point setters, H-specified melting fraction), and a solute with solvent
+    for k in range(6):
+        m = f(10 ** rng.uniform(-2, 2)); a = rng.random()
+        rows = {'l': [0.0, f(m * a), 0.0, 0.0, 0.0], 's': [0.0, f(m * (1 - a)), 0.0, 0.0, 0.0]}
+        ops = [f'new D multi ls 300.0 101325.0 {_fmt_rows(rows)}',
+               f'sle solute=Tetradecanol T={round(rng.uniform(280, 311), 2)}', f'sle solute=Tetradecanol Hm={round(rng.uniform(0.05, 0.95), 3)}',
+               f'sle solute=Tetradecanol T={round(rng.uniform(314, 340), 2)}', f'sle solute=Tetradecanol Hm={round(rng.uniform(0.05, 0.95), 3)}',
+               f'sle solute=Tetradecanol Hm={rng.choice([-0.3, 1.4])}', f'sle solute=Tetradecanol T={round(rng.uniform(280, 311), 2)}']
+        out.append(Case(ops, {'grid': 'sle-pure'}))
+    # optimiser variants: LLE by differential evolution (seeded by the library) -- same write-back, other solver
+    for k in range(3 if tier == 'thorough' else 1):
+        new, _ = _new(rng, 'B', [0, 1, 2, 3] if k else [0, 2], 'lL', 'random')
+        out.append(Case([new, f'lle T={round(rng.uniform(300, 340), 2)} method=de cache=0',
+                         f'lle T={round(rng.uniform(300, 340), 2)} method=de cache=0 top=Octane'], {'grid': 'lle-de'}))
+    if tier == 'thorough':
+        # VLE by shgo: `_solve_v` stores the optimiser's result WITHOUT the clip (slow: seconds per call)
+        for k in range(2):
+            new, _ = _new(rng, 'A', [0, 1, 2] if k else [0, 1], 'gl', 'random')
+            out.append(Case([new, f'vle T={round(rng.uniform(350, 365), 2)} P=101325.0 method=shgo',
+                             'vle P=101325.0 V=0.5 method=shgo'], {'grid': 'vle-shgo'}))
+    return out
+
+
 def generate(rng, tier, index, nworkers):
     b = budget(tier)
     grid = grid_cases(random.Random(rng.random()))
     # the same grid in every worker would need the same rng: derive it from the tier-level seed instead
     grid = grid + grid_histories(random.Random(rng.random()))
+    grid = grid + grid_branches(random.Random(rng.random()), tier)
     for k, c in enumerate(grid):
         if k % nworkers == index: yield c
     for _ in range(max(1, b['cases'] // nworkers)):
